@@ -30,6 +30,11 @@ func TestMain(m *testing.M) {
 			"Disconnected mostly the peer's last, TrimOpenConns mostly with the peer's buffered entry prunable, ForceTrim) and yields a bounded "+
 			"number of times before it returns; once both have returned the peer's state must be the result of one of the two serial orders (and "+
 			"its total the sum of its tags), an overlapping trim must be right for the peer's value before or after the upsert; "+
+			"and the LIFECYCLE of decaying tags: DecayingTag.Close() followed by RegisterDecayingTag with the closed tag's name at a drawn distance "+
+			"(while the closure is still queued because the decayer goroutine is held inside an earlier bump's bump function = harness code, also a bump of the tag being closed; "+
+			"right after the closure was applied; after a clock advance of part of / one / two decayer rounds), a retry after a refusal, then 0..3 bumps of the new tag and 0..5 decayer rounds, "+
+			"and Bump/Remove/Close on the handle of a closed tag (also while a namesake is registered); a registration may be refused or accepted, an accepted one enters the model as a decaying tag "+
+			"like any other (own schedule, bumps apply, every due round visits it, totals and trim order follow), a closed tag's values count for no peer; "+
 			"after every step the manager is compared with a reference model and every batch of "+
 			"closes is judged against the statement. TestTrimEnumerated: every multiset of up to 3 (4 thorough) peers over value x conns x "+
 			"protected x in-grace, times low watermark, times {TrimOpenConns, background, ForceTrim}, judged by the same oracle. TestTrimEnumeratedWide: "+
@@ -48,6 +53,7 @@ func TestMain(m *testing.M) {
 		"a peer whose tag values (ints) sum to a number outside the int range has no total the manager could report; such sums only arise from upserts/bumps on top of wide values (label wide:peer-total-does-not-fit-int-at-trim), Value is then compared modulo 2^64 like Go's int sum and the peer's rank in a trim is not judged",
 		"decay schedule modelled from the documented semantics: the decayer ticks every Resolution (from the manager's creation); a tag is decayed once per effective Interval (DecayingTag.Interval()), first one Interval after the decayer tick at or before its registration; only intervals that are multiples of the resolution (or shorter than it) are generated",
 		"synctest virtual time; benbjohnson/clock.New() follows it",
+		"tag lifecycle: the 'closure still queued' schedule is pinned by parking the decayer goroutine in a bump function until the Close and the RegisterDecayingTag have returned; only the closure is queued inside that window (the decayer picks among several non-empty queues at random, which would make the case depend on more than the draws); whether a registration is refused is not asserted",
 		"overlapped operations: the window is the upsert callback; the second operation gets a bounded number of scheduler yields (not time: a goroutine waiting for a mutex keeps a synctest bubble busy) to run inside it. A manager that holds the peer's lock across the callback serialises the two (label overlap:second-waited-for-the-upsert); both serial orders are accepted",
 	)
 	hx.Main(m)
@@ -68,6 +74,7 @@ var opTable = []weighted{
 	{"connect", 12}, {"connect-burst", 4}, {"connect-dup", 2}, {"disconnect", 5}, {"disconnect-unknown", 2},
 	{"tag", 7}, {"untag", 3}, {"upsert", 3}, {"upsert-overlap", 5},
 	{"dreg", 3}, {"dbump", 5}, {"dremove", 1}, {"dclose", 1}, {"decay-scenario", 3},
+	{"dclose-reregister", 3}, {"dclosed-use", 1},
 	{"protect", 4}, {"unprotect", 3},
 	{"advance", 10}, {"trim", 6}, {"force", 3}, {"flush-closed", 4}, {"streams", 1},
 }
@@ -220,6 +227,10 @@ func (w *world) step(rt *rapid.T) {
 			rt.Skip("no decaying tag")
 		}
 		w.closeDecaying(pick(rt, "dtag", lt))
+	case "dclose-reregister":
+		w.stepCloseReregister(rt)
+	case "dclosed-use":
+		w.stepUseClosedTag(rt)
 	case "protect":
 		w.protect(rapid.IntRange(0, np-1).Draw(rt, "peer"), pick(rt, "ptag", protTags))
 	case "unprotect":
